@@ -51,6 +51,13 @@ def trusted_base(m):
         n = len(re.findall(r"\b(assume|admit)\s*\(", txt))
         if n:
             tb.append("%s: %d assume()/admit() statements" % (f, n))
+    ovdir = os.path.join(VERIF, "contracts/overlay")
+    for f in sorted(os.listdir(ovdir)):
+        if not f.endswith(".ov"):
+            continue
+        for ln, line in enumerate(open(os.path.join(ovdir, f)), 1):
+            if re.search(r"\b(assume|admit)\s*\(", line) and not line.lstrip().startswith("//"):
+                tb.append("overlay/%s: %s" % (f, line.strip()))
     for key, f in m["functions"].items():
         if f["mode"] == "assumed":
             tb.append("/repo %s: contract assumed, body not verified (%s)" % (key, f.get("reason", "")))
@@ -58,6 +65,13 @@ def trusted_base(m):
             if rw.startswith("R6"):
                 tb.append("/repo %s: %s" % (key, rw))
     return sorted(set(tb))
+
+
+def allowlist_drift(tb):
+    """entries of the trusted base that are not on the committed allow-list (-> UNDECIDED, never a pass)"""
+    path = os.path.join(VERIF, "contracts/trusted_allowlist.txt")
+    allowed = set(l.rstrip("\n") for l in open(path)) if os.path.exists(path) else set()
+    return [t for t in tb if t not in allowed]
 
 
 def fn_breakdown(res):
@@ -137,6 +151,8 @@ def report(pid, tier, seed, m, sel, res, findings, cmd, t0, outdir):
         "repo_head": m.get("repo_head"),
         "rewrites_applied": sorted(set(r for k in selected for r in m["functions"][k].get("rewrites", []))),
         "functions_new_in_source_without_contract": m.get("without_record", []),
+        "vacuity_probes": {"planted": sel.get("probes", (0, 0))[0], "surviving": sel.get("probes", (0, 0))[1],
+                           "rule": "assert(false) at the entry of every selected function and loop body must be rejected by Verus"},
         "generated_cost_obligations": [{"id": o["id"], "declared": o["declared"], "derived": o["derived"]} for o in sel.get("extra_obligations", [])][:80],
         "other_properties_failing_in_shared_functions": sorted(set(t for f in others for t in f["tags"])),
     }
